@@ -15,10 +15,10 @@ def C01 : List (String × Nat × Nat) := [
   ("encoding/UTO311-L0x/UT0311-L0x.go:Marshal", 0xc5159313c4584fa7, 0x0393acbc69f04e82),
   ("encoding/UTO311-L0x/UT0311-L0x.go:marshal", 0x5cb570f8b12e4741, 0xefaae6aee8196998),
   ("encoding/UTO311-L0x/UT0311-L0x.go:type Marshaler", 0x6ebf4331d3217e3d, 0x68b6c861e261af40),
-  ("types/HHmm.go:HHmm.MarshalUT0311L0x", 0xdda31fe5cef562c8, 0x25c5cc585c01a28d),
+  ("types/HHmm.go:HHmm.MarshalUT0311L0x", 0xdda31fe5cef562c8, 0x4b24140b4b0dee00),
   ("types/PIN.go:PIN.MarshalUT0311L0x", 0x993559d724a3b527, 0x36190dd85c6345d3),
-  ("types/date.go:Date.MarshalUT0311L0x", 0x24a6ea75127b85b9, 0x8245d8f748dfec5a),
-  ("types/datetime.go:DateTime.MarshalUT0311L0x", 0x1b728fbb71a08d57, 0xe5ee6c8d6fcf3f83),
+  ("types/date.go:Date.MarshalUT0311L0x", 0x24a6ea75127b85b9, 0x1507e853063ed851),
+  ("types/datetime.go:DateTime.MarshalUT0311L0x", 0x1b728fbb71a08d57, 0xd83b9a251a7a8dbd),
   ("types/mac.go:MacAddress.MarshalUT0311L0x", 0x022144313f1d0f3f, 0x01e503623438989c),
   ("types/serialnumber.go:SerialNumber.MarshalUT0311L0x", 0x012b84393a089e54, 0x9a750b96d271bdb3),
   ("types/systemdate.go:SystemDate.MarshalUT0311L0x", 0x4deb28e0c020a5bb, 0xf00d62317714e3d4),
@@ -259,7 +259,7 @@ def C12 : List (String × Nat × Nat) := [
 
 def C13 : List (String × Nat × Nat) := [
   ("types/date.go:Date.IsZero", 0x54cd6982f551c2bf, 0xe21d5f465df31b34),
-  ("types/date.go:Date.MarshalUT0311L0x", 0x24a6ea75127b85b9, 0x8245d8f748dfec5a),
+  ("types/date.go:Date.MarshalUT0311L0x", 0x24a6ea75127b85b9, 0x1507e853063ed851),
   ("types/date.go:Date.UnmarshalUT0311L0x", 0x596bde0a71a19e90, 0x69cba89c97c0c243),
   ("types/date.go:Date.Weekday", 0x12d4064d348009f2, 0x635774cc1c1e6adb),
   ("types/date.go:MustParseDate", 0xdc8a0f6687f8d5be, 0x702c48f8fb8b8bb4),
@@ -267,7 +267,7 @@ def C13 : List (String × Nat × Nat) := [
   ("types/date.go:ToDate", 0x71ec538959b72e49, 0xe8b6bab9ba5ed075),
   ("types/date.go:startOfDay", 0x57fc0ade38fef209, 0xc856921320d3f9a8),
   ("types/datetime.go:DateTime.IsZero", 0xf74cbb79e94bd3bd, 0x742a92a17f3610aa),
-  ("types/datetime.go:DateTime.MarshalUT0311L0x", 0x1b728fbb71a08d57, 0xe5ee6c8d6fcf3f83),
+  ("types/datetime.go:DateTime.MarshalUT0311L0x", 0x1b728fbb71a08d57, 0xd83b9a251a7a8dbd),
   ("types/datetime.go:DateTime.UnmarshalUT0311L0x", 0x736cae273cd49220, 0x35f8a8602f705f1b),
   ("types/systemdate.go:SystemDate.IsZero", 0xdb122efeceb38458, 0xca34694ef5f8bf3b),
   ("types/systemdate.go:SystemDate.MarshalUT0311L0x", 0x4deb28e0c020a5bb, 0xf00d62317714e3d4),
